@@ -49,6 +49,7 @@ def generate(run_seed: int, tier: str) -> Plan:
     if rng.random() < 0.6:
         pool.append({"kind": "norule", "units": rng.randint(1, 2)})
     faults = rng.random() < 0.5
+    bare_regs = rng.choice([0, 0, 1, 2])
     n = rng.randint(14, 36) if tier == "quick" else rng.randint(20, 70)
     ops: list[dict[str, Any]] = []
     depth = 0
@@ -57,7 +58,11 @@ def generate(run_seed: int, tier: str) -> Plan:
         if depth == 0 and r < 0.45:
             r = 0.0  # most of the history happens inside blocks
         if r < 0.16:
-            ops.append({"op": "enter", "ctx": rng.randrange(nctx)})
+            if bare_regs and rng.random() < 0.25:
+                # a bare OperatorRegistry block (a public context manager of its own)
+                ops.append({"op": "enter_reg", "reg": rng.randrange(bare_regs)})
+            else:
+                ops.append({"op": "enter", "ctx": rng.randrange(nctx)})
             depth += 1
         elif r < 0.28:
             ops.append({"op": "exit", "how": rng.choice(["normal", "normal", "exc"])})
@@ -91,7 +96,7 @@ def generate(run_seed: int, tier: str) -> Plan:
     return {
         "prop": "C18", "run_seed": run_seed, "tier": tier,
         "hash_seed": H(run_seed, "hash"), "probe_seed": H(run_seed, "probe") % (2**31),
-        "config": {"contexts": ctxs, "faults": faults},
+        "config": {"contexts": ctxs, "faults": faults, "bare_regs": bare_regs},
         "pool": pool, "ops": ops,
     }
 
@@ -228,6 +233,16 @@ class WorldB:
             cls, rule = _make_marker(i)
             c.add_operator_rule(LayerOperator.INTEGRATION, rule)
             self.markers.append(_marker_circuit(cls))
+        from cirkit.symbolic.registry import OperatorRegistry
+
+        self.bare_regs: list[Any] = []
+        for j in range(int(plan["config"].get("bare_regs", 0))):
+            reg = OperatorRegistry.from_default_rules()
+            cls, rule = _make_marker(len(self.ctxs) + j)
+            reg.add_rule(LayerOperator.INTEGRATION, rule)
+            self.markers.append(_marker_circuit(cls))
+            self.bare_regs.append(reg)
+        # the model's stack of open blocks: context index i >= 0, or -(2 + j) for bare registry j
         self.default_ctx = self._current_ctx_direct()
         # pool of symbolic circuits: (name, circuit, meta)
         self.pool: list[tuple[str, Any, dict[str, Any]]] = []
@@ -284,7 +299,18 @@ class WorldB:
         return self.default_ctx if i == -1 else self.ctxs[i]
 
     def top(self) -> int:
-        return self.stack[-1] if self.stack else -1
+        """The active pipeline context: the innermost open *context* block."""
+        for e in reversed(self.stack):
+            if e >= 0:
+                return e
+        return -1
+
+    def active_marker(self) -> int | None:
+        """Index of the marker whose rule the active operator registry carries."""
+        if not self.stack:
+            return None
+        e = self.stack[-1]
+        return e if e >= 0 else len(self.ctxs) + (-e - 2)
 
     def meta(self, sc: Any) -> dict[str, Any]:
         m = self.meta_of_sc.get(id(sc))
@@ -358,7 +384,8 @@ class WorldB:
                 ok.add(i)
             except OperatorSignatureNotFound:
                 pass
-        want = set() if exp == -1 else {exp}
+        am = self.active_marker()
+        want = set() if am is None else {am}
         self.tr.count("chk:registry")
         if ok != want:
             raise Violation("A2", f"active operator registry belongs to contexts {sorted(ok)}, model says {sorted(want)} (stack {self.stack})")
@@ -506,6 +533,47 @@ class WorldB:
                     self.tr.count("exit:normal")
                 self.kinds.append("exit-" + how)
                 self.tr.ev("exit", i, how, list(self.stack))
+                self.check_active(True)
+                self.check_bimap()
+                continue
+            if kind == "enter_reg":
+                j = op["reg"] % max(1, len(self.bare_regs)) if self.bare_regs else -1
+                code = -(2 + j)
+                if j < 0 or code in self.stack:
+                    self.tr.ev("enter_reg", j, "noop")
+                    self.tr.count("enter:noop-reentrant")
+                    pos += 1
+                    continue
+                self.kinds.append(f"enter-reg{len(self.stack)}")
+                propagated = False
+                how = "normal"
+                try:
+                    with self.bare_regs[j] as entered:
+                        if entered is not self.bare_regs[j]:
+                            raise Violation("A3", "OperatorRegistry.__enter__ did not return the registry")
+                        self.stack.append(code)
+                        if len(self.stack) >= 2:
+                            self.had_nested = True
+                        self.tr.ev("enter_reg", j, "ok", list(self.stack))
+                        self.tr.count("enter:bare-registry")
+                        self.check_active(True)
+                        pos = self.run_block(pos + 1, depth + 1)
+                        how = self._last_exit
+                        self.tr.step = pos - 1
+                        if how == "exc":
+                            raise _BlockExit()
+                except _BlockExit:
+                    propagated = True
+                self.stack.pop()
+                if how == "exc":
+                    self.had_disruption = True
+                    self.tr.count("exit:exc")
+                    if not propagated:
+                        raise Violation("A4", "an exception raised inside the with-block was swallowed by __exit__")
+                else:
+                    self.tr.count("exit:normal")
+                self.kinds.append("exit-" + how)
+                self.tr.ev("exit_reg", j, how, list(self.stack))
                 self.check_active(True)
                 self.check_bimap()
                 continue
